@@ -12,6 +12,7 @@ import (
 	"sync"
 
 	ledger "github.com/formancehq/ledger/internal"
+	"github.com/formancehq/ledger/internal/storage"
 	"github.com/formancehq/ledger/internal/storage/sqlutils"
 	"github.com/formancehq/stack/libs/go-libs/metadata"
 )
@@ -22,6 +23,43 @@ type Disk struct {
 	Logs []*ledger.ChainedLog
 	// Batches records every InsertLogs call that succeeded, across generations
 	Batches [][]*ledger.ChainedLog
+	// Shadow: the repository's own storage.InMemoryStore, fed the same batches; every read the engine makes is answered
+	// by the fold over Logs and ALSO asked of the shadow; ShadowDiffs lists the reads on which the two differ
+	Shadow      *storage.InMemoryStore
+	ShadowDiffs []string
+	noShadow    bool
+}
+
+// shadowCheck compares what the fold answered with what the repository's in-memory store answers to the same read.
+func (d *Disk) shadowCheck(kind, arg, fold string, ask func(m *storage.InMemoryStore) string) {
+	d.mu.Lock()
+	defer d.mu.Unlock()
+	if d.Shadow == nil {
+		return
+	}
+	got := ""
+	func() {
+		defer func() {
+			if x := recover(); x != nil {
+				got = fmt.Sprint("panic: ", x)
+			}
+		}()
+		got = ask(d.Shadow)
+	}()
+	if got != fold && len(d.ShadowDiffs) < 20 {
+		d.ShadowDiffs = append(d.ShadowDiffs, fmt.Sprintf("%s|%s(%s): the log says %s, storage.InMemoryStore says %s", kind, kind, arg, fold, got))
+	}
+}
+
+func txDesc(tx *ledger.Transaction, reverted bool) string {
+	if tx == nil {
+		return "not-found"
+	}
+	ps := ""
+	for _, p := range tx.Postings {
+		ps += fmt.Sprintf("%s>%s:%s:%s;", p.Source, p.Destination, p.Asset, p.Amount)
+	}
+	return fmt.Sprintf("tx %s ref=%q reverted=%v %s", tx.ID, tx.Reference, reverted, ps)
 }
 
 func (d *Disk) snapshot() []*ledger.ChainedLog {
@@ -85,6 +123,13 @@ func (s *Store) GetBalance(ctx context.Context, address, asset string) (*big.Int
 	if s.S != nil {
 		s.S.note(ctx, "store.balance", "account", address, "asset", asset, "value", b.String())
 	}
+	s.D.shadowCheck("balance", address+"/"+asset, b.String(), func(m *storage.InMemoryStore) string {
+		v, err := m.GetBalance(ctx, address, asset)
+		if err != nil {
+			return "error: " + err.Error()
+		}
+		return v.String()
+	})
 	return b, nil
 }
 
@@ -120,6 +165,17 @@ func (s *Store) GetAccount(ctx context.Context, address string) (*ledger.Account
 
 func (s *Store) GetLastLog(ctx context.Context) (*ledger.ChainedLog, error) {
 	logs := s.D.snapshot()
+	fold := "none"
+	if len(logs) > 0 {
+		fold = logs[len(logs)-1].ID.String()
+	}
+	s.D.shadowCheck("lastlog", "", fold, func(m *storage.InMemoryStore) string {
+		l, err := m.GetLastLog(ctx)
+		if err != nil || l == nil {
+			return "none"
+		}
+		return l.ID.String()
+	})
 	if len(logs) == 0 {
 		return nil, nil
 	}
@@ -140,10 +196,26 @@ func (s *Store) ReadLogWithIdempotencyKey(ctx context.Context, key string) (*led
 	if s.readFails(ctx, "ik") {
 		return nil, ErrTransient
 	}
+	var found *ledger.ChainedLog
 	for _, l := range s.D.snapshot() {
 		if l.IdempotencyKey == key {
-			return l, nil
+			found = l
+			break
 		}
+	}
+	fold := "not-found"
+	if found != nil {
+		fold = "log " + found.ID.String()
+	}
+	s.D.shadowCheck("ik", key, fold, func(m *storage.InMemoryStore) string {
+		l, err := m.ReadLogWithIdempotencyKey(ctx, key)
+		if err != nil || l == nil {
+			return "not-found"
+		}
+		return "log " + l.ID.String()
+	})
+	if found != nil {
+		return found, nil
 	}
 	return nil, sqlutils.ErrNotFound
 }
@@ -161,9 +233,23 @@ func (s *Store) GetTransactionByReference(ctx context.Context, ref string) (*led
 					cp.Reverted = true // as the SQL projection reports it
 				}
 			}
+			s.D.shadowCheck("ref", ref, txDesc(&cp, cp.Reverted), func(m *storage.InMemoryStore) string {
+				t, err := m.GetTransactionByReference(ctx, ref)
+				if err != nil || t == nil {
+					return "not-found"
+				}
+				return txDesc(&t.Transaction, t.Reverted)
+			})
 			return &ledger.ExpandedTransaction{Transaction: cp}, nil
 		}
 	}
+	s.D.shadowCheck("ref", ref, "not-found", func(m *storage.InMemoryStore) string {
+		t, err := m.GetTransactionByReference(ctx, ref)
+		if err != nil || t == nil {
+			return "not-found"
+		}
+		return txDesc(&t.Transaction, t.Reverted)
+	})
 	return nil, sqlutils.ErrNotFound
 }
 
@@ -179,7 +265,15 @@ func (s *Store) GetTransaction(ctx context.Context, txID *big.Int) (*ledger.Tran
 			found = &cp
 		}
 	}
+	askTx := func(m *storage.InMemoryStore) string {
+		t, err := m.GetTransaction(ctx, txID)
+		if err != nil || t == nil {
+			return "not-found"
+		}
+		return txDesc(t, t.Reverted)
+	}
 	if found == nil {
+		s.D.shadowCheck("tx", txID.String(), "not-found", askTx)
 		return nil, sqlutils.ErrNotFound
 	}
 	for _, l := range logs {
@@ -187,6 +281,7 @@ func (s *Store) GetTransaction(ctx context.Context, txID *big.Int) (*ledger.Tran
 			found.Reverted = true
 		}
 	}
+	s.D.shadowCheck("tx", txID.String(), txDesc(found, found.Reverted), askTx)
 	return found, nil
 }
 
@@ -205,6 +300,23 @@ func (s *Store) InsertLogs(ctx context.Context, logs ...*ledger.ChainedLog) erro
 	s.D.mu.Lock()
 	s.D.Logs = append(s.D.Logs, logs...)
 	s.D.Batches = append(s.D.Batches, append([]*ledger.ChainedLog{}, logs...))
+	if s.D.Shadow == nil && !s.D.noShadow {
+		s.D.Shadow = storage.NewInMemoryStore()
+		func() {
+			defer func() { _ = recover() }()
+			_ = s.D.Shadow.InsertLogs(ctx, s.D.Logs[:len(s.D.Logs)-len(logs)]...)
+		}()
+	}
+	if s.D.Shadow != nil {
+		func() {
+			defer func() {
+				if x := recover(); x != nil && len(s.D.ShadowDiffs) < 20 {
+					s.D.ShadowDiffs = append(s.D.ShadowDiffs, fmt.Sprint("insert|storage.InMemoryStore.InsertLogs panics: ", x))
+				}
+			}()
+			_ = s.D.Shadow.InsertLogs(ctx, logs...)
+		}()
+	}
 	s.D.mu.Unlock()
 	return nil
 }
